@@ -2,9 +2,9 @@
    Statements only; every proof is [exact <lemma>] (proofs/Framing_proofs.v, proofs/Varint_proofs.v).
    Model: model/Framing.v (msgio length-prefixed frames, StreamMsg{data|error}, incremental reader).
    Non-vacuity: ex_typed, ex_session, ex_neither, ex_negative_code, ex_limit, ex_chunking_dead,
-   ex_oversized, ex_epilogue (Framing_proofs), varint_examples, utf8_examples (Varint_proofs). *)
-From Coq Require Import List NArith ZArith Bool.
-From MevVerif Require Import lib.Bytes lib.Varint model.Framing proofs.Varint_proofs proofs.Framing_proofs.
+   ex_oversized, ex_epilogue, ex_header (Framing_proofs), varint_examples, utf8_examples (Varint_proofs). *)
+From Coq Require Import String List NArith ZArith Bool.
+From MevVerif Require Import lib.Bytes lib.Varint model.Framing check.Check_C13 proofs.Varint_proofs proofs.Framing_proofs.
 Import ListNotations.
 Open Scope N_scope.
 
@@ -13,7 +13,10 @@ Open Scope N_scope.
    under ANY chunking of the byte stream is read back as exactly that sequence, in order, one
    result per write, with nothing left over and the reader not stuck.  Equality of the decoded
    messages/headers rests on the two premises Unmarshal(Marshal x) = x for protobuf-go, which
-   the driver tests for every protocol message type. *)
+   the driver tests for every protocol message type (for headers the map framing is proved
+   without premise in C13_header; a Go nil map and an empty map are the same header here).
+   Scope: every read runs to completion.  A ReadMsg abandoned through its context leaves a
+   goroutine that consumes and drops the next frame; that is outside this theorem. *)
 Theorem C13_roundtrip :
   forall (M H : Type) (marshal : M -> bytes) (unmarshal : bytes -> option M)
          (hmarshal : H -> bytes) (hunmarshal : bytes -> option H),
@@ -64,13 +67,23 @@ Theorem C13_error : forall (s : status) (cs : list bytes),
 Proof. exact error_roundtrip. Qed.
 Print Assumptions C13_error.
 
-(* ... and whatever the status (code OK included), the frame WriteError produces never reads
-   as data.  A status that cannot be marshalled puts nothing on the stream. *)
+(* ... and the frame WriteError produces never delivers a payload to the caller's message
+   (result RData).  For a non-OK code that is the claim of the property.  For code OK it only
+   says "no payload": ReadMsg then returns nil with the caller's message untouched, which a
+   caller cannot tell from a successful read -- made explicit in C13_ok_status_reads_as_nothing
+   (outside the property, which speaks of non-OK statuses).  A status that cannot be marshalled
+   puts nothing on the stream. *)
 Theorem C13_error_never_data : forall (s : status) (f d : bytes),
   write_error s = Ok f -> int32_range (st_code s) -> len_of (enc_streammsg (BError s)) <= max_msg ->
   forall fr rest, parse1 (f ++ rest) = Frame fr rest -> read_msg fr <> RData d.
 Proof. exact error_never_data. Qed.
 Print Assumptions C13_error_never_data.
+
+Theorem C13_ok_status_reads_as_nothing : forall s,
+  st_code s = 0%Z -> status_marshal_ok s = true -> len_of (enc_streammsg (BError s)) <= max_msg ->
+  read_msg (enc_streammsg (BError s)) = ROkNoData.
+Proof. exact ok_status_reads_as_nothing. Qed.
+Print Assumptions C13_ok_status_reads_as_nothing.
 
 Theorem C13_error_refused : forall s, status_marshal_ok s = false -> write_error s = Err err_marshal.
 Proof. exact write_error_refused. Qed.
@@ -118,6 +131,54 @@ Theorem C13_oversized : forall (bodies : list bytes) (big tail : bytes) (cs : li
 Proof. exact oversized_blocks. Qed.
 Print Assumptions C13_oversized.
 
+(* Production wraps ONE libp2p stream in TWO msgio readers (newMetadataStream for the header
+   exchange, then newStream for the messages).  With the explicit premise that neither reader
+   object takes more bytes from the stream than the frame it returns ([exact_reads]; pinned to the
+   msgio source by wiring_exact_reads: io.ReadFull on exactly 4 and exactly n bytes, no buffered
+   reader), reads that alternate in ANY way between the two readers -- in particular header first,
+   then messages -- return the written items in order, leave both readers and the stream empty,
+   and agree with the single-reader model used above. *)
+Theorem C13_two_readers : forall (aheadA aheadB : nat) (its : list item) (which : list bool),
+  exact_reads aheadA aheadB -> Forall item_ok its -> length which = length its ->
+  exists rs,
+    pull_seq aheadA aheadB which mr_init mr_init (stream_of its) = (rs, (mr_init, mr_init, [])) /\
+    Forall2 (fun it r => exists fr, r = PFrame fr /\ delivered it fr) its rs /\
+    rs = map PFrame (out (feed_all (stream_of its))).
+Proof. exact two_readers_roundtrip. Qed.
+Print Assumptions C13_two_readers.
+
+(* The premise is needed: a metadata reader that reads ahead swallows the frame behind the header. *)
+Theorem C13_readahead_refuted :
+  exists aheadA its,
+    Forall item_ok its /\
+    fst (pull_seq aheadA 0 [true; false] mr_init mr_init (stream_of its)) <> map (fun it => PFrame (item_body it)) its /\
+    fst (pull_seq aheadA 0 [true; false] mr_init mr_init (stream_of its)) = [PFrame (x "0a050a016b1200"); PEnd].
+Proof. exact two_readers_readahead_refuted. Qed.
+Print Assumptions C13_readahead_refuted.
+
+(* Headers without the protobuf premise, at the level of the map framing (Values are opaque
+   byte strings): a header map with distinct UTF-8 keys, marshalled in ANY entry order, written
+   with WriteHeader and read under any chunking, decodes to the same key -> value map. *)
+Theorem C13_header : forall (h : list hentry) (cs : list bytes),
+  NoDup (map fst h) -> Forall (fun e => utf8_valid (fst e) = true) h ->
+  len_of (enc_header h) <= max_msg ->
+  exists f, write_header (Some (enc_header h)) = Ok f /\
+    (concat cs = f ->
+     map (fun fr => decode_header (read_header fr)) (out (feed_chunks cs)) = [TOk h] /\
+     dead (feed_chunks cs) = false /\ rbuf (feed_chunks cs) = []).
+Proof. exact header_roundtrip. Qed.
+Print Assumptions C13_header.
+
+(* The property checker of check/Check_C13.v accepts the model: an honest session in which the
+   implementation does what the model says has no violation, whatever the chunk pattern. *)
+Theorem C13_checker_accepts_model : forall (canon : bytes -> bytes) (its : list item) (pat : list N)
+    (hdrs : list (bytes * option bytes)),
+  Forall item_ok its ->
+  violation (Session true (map (wop_of canon) its) (map wseen_of its) None pat
+                     (map rop_of its ++ [0]) (map (robs_of canon) its ++ [OEOF]) hdrs true) = [].
+Proof. exact checker_accepts_model. Qed.
+Print Assumptions C13_checker_accepts_model.
+
 (* Codec round trips underneath: varint, field lists, length prefix. *)
 Theorem C13_varint_roundtrip : forall v rest, v < two64 -> varint_dec (varint_enc v ++ rest) = Some (v, rest).
 Proof. exact varint_dec_enc. Qed.
@@ -134,5 +195,7 @@ Print Assumptions C13_prefix_roundtrip.
 
 (* Outside these theorems (observed by the correspondence only): protobuf-go's own Marshal /
    Unmarshal of the inner messages and of Header maps (premises of C13_roundtrip), skipping of
-   group-typed unknown fields (RUnspec), reads abandoned through context cancellation, and the
-   residual state of a msgio reader after a transport error. *)
+   group-typed unknown fields (RUnspec), reads abandoned through context cancellation (the
+   pending goroutine swallows the next frame), writes abandoned through context cancellation
+   (WriteMsg may return ctx.Err() although the frame is still written), Unmarshal of the Values
+   inside a header, and the residual state of a msgio reader after a transport error. *)
